@@ -4,6 +4,7 @@ import ComposeVerif.Spec.Consistency
 import ComposeVerif.Model.Validate
 import ComposeVerif.Model.NormalizeDeps
 import ComposeVerif.Model.ConsistencyGlue
+import ComposeVerif.Model.Merge
 /-! line-protocol ops for C10:
 `c10.consistency` (model of `loader.checkConsistency` + outcomes over all iteration orders + spec decision),
 `c10.cycleBatch` (model of `graph.CheckCycle` over a range of digraphs),
@@ -184,9 +185,19 @@ def glueOp : Handler := fun args =>
               ("alts", altsJson p (consistencyAlts p)),
               ("main", per .main), ("included", per .included), ("extended", per .extended)]
 
+/-- `override.Merge` followed by `validation.Validate` (Props/C10Merge.lean) -/
+def mergeValidateOp : Handler := fun args =>
+  match CV.Val.ofJson (getObj args "a"), CV.Val.ofJson (getObj args "b") with
+  | .ok a, .ok b =>
+    match CV.Merge.merge a b with
+    | .ok m => Json.mkObj [("merge", Json.str "ok"), ("alts", Json.arr (((CV.Validate.failures m).map voutJson).toArray))]
+    | .err e => Json.mkObj [("merge", Json.str ("err:" ++ e))]
+    | .panic s => Json.mkObj [("merge", Json.str ("panic:" ++ s))]
+  | _, _ => Json.mkObj [("bad", Json.str "tree")]
+
 def handlers : List (String × Handler) :=
   [("c10.consistency", consistency), ("c10.cycle", cycle), ("c10.consistent", consistent),
    ("c10.cycleBatch", cycleBatch), ("c10.validate", validateOp), ("c10.normDeps", normDepsOp), ("c10.cyclePath", cyclePathOp),
-   ("c10.glue", glueOp)]
+   ("c10.glue", glueOp), ("c10.mergeValidate", mergeValidateOp)]
 
 end CV.Ops.C10
